@@ -13,7 +13,7 @@ structure FloatOps where
   rateKey : UInt32 → Int
   /-- `static_cast<size_t>(rate)` -/
   truncNat : UInt32 → Nat
-  /-- `static_cast<size_t>(a / b)` -/
+  /-- `static_cast<size_t>(std::round(a / b))` (sub-frames per frame from the two rates; rounded since fix 'subframes rounded') -/
   ratioNat : UInt32 → UInt32 → Nat
 
 /-- `static_cast<double>(x) == 0.0`: +0 or -0. A bit test, needs no float. -/
